@@ -277,6 +277,8 @@ def exec_single(case):
                     sig="%s.hung.%s" % (focus, what.split("(")[0]))
             return st, res
 
+        writes_seen = [0]
+
         def after_write(st, res, what, new_model):
             """C47 ground truth + model update after a write operation."""
             nonlocal model, last_seq
@@ -284,12 +286,31 @@ def exec_single(case):
             state = disk_state(g.servers, si) if si else {}
             vers = versions_on_disk(state)
             model_before = model
-            if st == "ok":
+            # which version did *this* operation send to the servers?  (sequence numbers in the offset-0 write vectors of
+            # its own slot_testv_and_readv_and_writev calls; operations are sequential and the queue was drained)
+            mine = mon.writes[writes_seen[0]:]
+            writes_seen[0] = len(mon.writes)
+            wrote_seqs = set()
+            for wv in mine:
+                for shnum, (testv, writev, newlen) in wv["tw"].items():
+                    for (woff, wdata) in writev:
+                        if woff == 0 and len(wdata) >= 9 and wdata[0] in (0, 1):
+                            wrote_seqs.add(struct.unpack(">Q", wdata[1:9])[0])
+            if st == "ok" and not mine:
+                # success without any write on the wire (e.g. a zero-length update): nothing was published, so C47 has
+                # nothing to say; the contents are still checked by the read-back (C09)
+                probe("write-ok-nothing-published")
+                model = new_model
+            elif st == "ok":
                 probe("write-ok")
                 model = new_model
                 if vers:
                     newest = max(vers, key=lambda v: v[1])
-                    have = len(vers[newest])
+                    if wrote_seqs:
+                        # the version this operation published, not a higher-numbered leftover of an earlier failed write
+                        cands = [v for v in vers if v[1] == max(wrote_seqs)]
+                        newest = cands[0] if cands else (None, max(wrote_seqs), None)
+                    have = len(vers.get(newest, ()))
                     if newest[1] <= last_seq and (isinstance(model_before, tuple) or bytes(model_before or b"") != bytes(new_model)):
                         bad("C11", "seqnum-not-increased", "%s succeeded but the highest sequence number on disk is %d (was %d)" % (what, newest[1], last_seq))
                     if have < k:
